@@ -388,6 +388,13 @@ ScriptVariable::ScriptVariable(ScriptVariable&& variable)
     , type(variable.type)
 {
     variable.type = variableType_e::None;
+
+    if (type == variableType_e::Pointer)
+    {
+        // if it's a pointer, make sure to properly point (as the move assignment does)
+        m_data.pointerValue->add(this);
+        m_data.pointerValue->remove(&variable);
+    }
 }
 
 ScriptVariable::ScriptVariable(int32_t initialValue)
